@@ -63,5 +63,5 @@ def register(reg):
                 ('returns-dask-result', SBool(r._rec is res if hasattr(r, '_rec') else False))]
 
     reg.add(Contract(DASK + '::DaskGeoDataFrame.__getitem__', params, returns=None, ensures=ens, configs=cfgs,
-                     props=('C06', 'C09', 'C12'),
+                     props=('C06', 'C09', 'C12', 'C13', 'C17'),
                      note='dd.DataFrame.__getitem__, _propagate_props_to_series/_dataframe are assumed'))
